@@ -78,6 +78,9 @@ func (txR *Reactor) fetchTx(peer string, hashes []common.Hash) error {
 
 // OnStart implements p2p.BaseReactor.
 func (txR *Reactor) OnStart() error {
+	// The fetcher serves Receive and RemovePeer (Enqueue, Notify, Drop block until its loop takes
+	// them), whether or not this node broadcasts its own transactions.
+	txR.txFetcher.Start()
 	if !txR.config.Broadcast {
 		txR.Logger.Info("Tx broadcasting is disabled")
 		return nil
@@ -85,7 +88,6 @@ func (txR *Reactor) OnStart() error {
 	txR.txsCh = make(chan events.NewTxsEvent, txChanSize)
 	txR.txsSub = txR.txpool.SubscribeNewTxsEvent(txR.txsCh)
 
-	txR.txFetcher.Start()
 	go txR.broadcastTransactionsRoutine()
 	return nil
 }
